@@ -1379,7 +1379,7 @@ Section Bridge.
     - intros v nf Hv H. cbn [vset] in H. destruct v; try discriminate H. inversion H. reflexivity.
     - intros v nf Hv H. cbn [vset] in H. inversion H. subst. exact Hv.
     - intros vs v nf Hv H. cbn [vset] in H. destruct (py_in v vs); [inversion H; subst; exact Hv | discriminate H].
-    - intros c ms v nf Hv H. cbn [vset] in H. destruct (negb (py_hashable v)); [discriminate H|].
+    - intros c ms v nf Hv H. cbn [vset] in H.
       destruct v; try discriminate H.
       + destruct (alist_get ms s); [inversion H; reflexivity | discriminate H].
       + match type of H with (if ?b then _ else _) = _ => destruct b end; [inversion H; reflexivity | discriminate H].
